@@ -887,7 +887,7 @@ Proof.
     + eapply chain_ext; eauto; intros; norm; auto.
   - auto.
   - norm. auto.
-  - intros e H. norm. norm in H. auto.
+  - intros e He. norm. norm in He. auto.
   - rewrite Hc. cbn [tl]. norm.
     eapply ctxrel_ext; [eassumption|norm; lia|].
     intros j Hj. rewrite outer_set_ctx_t_other; norm; auto. intro; subst; auto.
@@ -897,4 +897,222 @@ Proof.
     + rewrite subject_set_ctx_t_other by auto. norm. rewrite (R_subject0 j Hj), Hc. cbn.
       rewrite (proj2 (Nat.eqb_neq j k)) by auto. reflexivity.
   - norm. auto.
+Qed.
+
+(* ---- one operation ---- *)
+Definition res_ok (r : res) (b : bool) : Prop :=
+  match r with Ok => b = false | Raise _ => b = true | OutOfFuel => False end.
+
+Lemma stack_root : forall s p, R s p -> (p_stack p = [] <-> c_root s = None).
+Proof.
+  intros s p HR. split; intro H.
+  - destruct (c_root s) eqn:Hr; auto. destruct (R_root_some _ _ _ HR Hr) as (nf & rs & Hst & _).
+    rewrite H in Hst. destruct nf; discriminate.
+  - apply (R_root_none _ _ HR H).
+Qed.
+
+Lemma sim_begin : forall s p b p', R s p -> sstep OBegin p = Some (b, p') ->
+  exists r s', begin s = (r, s') /\ R s' p' /\ res_ok r b.
+Proof.
+  intros s p b p' HR H. cbn in H. unfold begin.
+  destruct (c_root s) as [r|] eqn:Hr.
+  - assert (Hs : p_stack p <> []) by (intro X; apply (stack_root _ _ HR) in X; congruence).
+    destruct (p_stack p) eqn:E; [contradiction|]. cbn in H. rewrite orb_true_r in H. inversion H; subst.
+    eexists _, s. split; [reflexivity|]. split; [auto|reflexivity].
+  - rewrite (proj2 (stack_root _ _ HR) Hr) in H. cbn in H. rewrite orb_false_r in H.
+    destruct (blocked p) eqn:Hb; inversion H; subst.
+    + destruct (R_blocked_new_root _ _ HR Hb) as [e ->]. eexists _, s. split; [reflexivity|]. split; [auto|reflexivity].
+    + destruct (R_new_root _ _ HR Hr Hb) as (s' & A & B & _). rewrite A. eexists _, s'. split; [reflexivity|]. split; [auto|reflexivity].
+Qed.
+
+Lemma sim_nested : forall s p b p', R s p -> sstep ONested p = Some (b, p') ->
+  exists r s', begin_nested s = (r, s') /\ R s' p' /\ res_ok r b.
+Proof.
+  intros s p b p' HR H. cbn in H. destruct (blocked p) eqn:Hb; inversion H; subst.
+  - destruct (R_blocked_nested _ _ HR Hb) as [e ->]. eexists _, s. split; [reflexivity|]. split; [auto|reflexivity].
+  - pose proof Hb as Hb'. apply orb_false_elim in Hb'. destruct Hb' as [Hc Hx].
+    unfold begin_nested, bind, autobegin_if_none, begin. destruct (c_root s) as [r|] eqn:Hr.
+    + destruct (R_root_some _ _ _ HR Hr) as (nf & rs & Hst & _).
+      assert (E : autobegin_spec p = p) by (unfold autobegin_spec; rewrite Hst; destruct nf; reflexivity).
+      rewrite E. destruct (R_new_nested _ _ _ HR Hr Hx) as (s' & A & B). rewrite A.
+      eexists _, s'. split; [reflexivity|]. split; [auto|reflexivity].
+    + destruct (R_new_root _ _ HR Hr Hb) as (s1 & A & B & C). rewrite A.
+      assert (E : autobegin_spec p = open_frame true p).
+      { unfold autobegin_spec. rewrite (proj2 (stack_root _ _ HR) Hr). reflexivity. }
+      rewrite E. destruct (R_new_nested _ _ _ B C) as (s' & A' & B').
+      { rewrite (ctx_bad_open_frame _ _ _ HR). auto. }
+      rewrite A'. eexists _, s'. split; [reflexivity|]. split; [auto|reflexivity].
+Qed.
+
+Lemma sim_ins : forall s p v b p', R s p -> sstep (OIns v) p = Some (b, p') ->
+  exists r s', ins v s = (r, s') /\ R s' p' /\ res_ok r b.
+Proof.
+  intros s p v b p' HR H. cbn in H. destruct (blocked p) eqn:Hb; inversion H; subst.
+  - destruct (R_blocked_ins _ _ v HR Hb) as [e ->]. eexists _, s. split; [reflexivity|]. split; [auto|reflexivity].
+  - destruct (R_exec_guard _ _ HR Hb) as (s1 & A & B & _). unfold ins, bind. rewrite A.
+    eexists _, _. split; [reflexivity|]. split; [apply R_insert; auto|reflexivity].
+Qed.
+
+Lemma sim_conn_commit : forall s p b p', R s p -> WF s -> sstep OCommit p = Some (b, p') ->
+  exists r s', conn_commit s = (r, s') /\ R s' p' /\ res_ok r b.
+Proof.
+  intros s p b p' HR W H. cbn in H. inversion H; subst. unfold conn_commit.
+  destruct (c_root s) as [r|] eqn:Hr.
+  - destruct (R_root_some _ _ _ HR Hr) as (nf & rs & Hst & Hroot & _).
+    unfold t_commit. rewrite Hroot. destruct (root_do_commit_R _ _ _ HR W Hr) as (s' & A & B & _).
+    rewrite A. eexists _, s'. split; [reflexivity|]. split; [|reflexivity].
+    rewrite Hst. destruct nf; exact B.
+  - rewrite (proj2 (stack_root _ _ HR) Hr). eexists _, s. split; [reflexivity|]. split; [auto|reflexivity].
+Qed.
+
+Lemma sim_conn_rollback : forall s p b p', R s p -> WF s -> sstep ORollback p = Some (b, p') ->
+  exists r s', conn_rollback s = (r, s') /\ R s' p' /\ res_ok r b.
+Proof.
+  intros s p b p' HR W H. cbn in H. inversion H; subst. unfold conn_rollback.
+  destruct (c_root s) as [r|] eqn:Hr.
+  - destruct (R_root_some _ _ _ HR Hr) as (nf & rs & Hst & Hroot & _).
+    unfold t_rollback. rewrite Hroot. destruct (root_close_impl_R _ _ _ true HR W Hr) as (s' & A & B & _).
+    rewrite A. eexists _, s'. split; [reflexivity|]. split; [|reflexivity].
+    rewrite Hst. destruct nf; exact B.
+  - rewrite (proj2 (stack_root _ _ HR) Hr). eexists _, s. split; [reflexivity|]. split; [auto|reflexivity].
+Qed.
+
+Lemma sim_conn_close : forall s p b p', R s p -> WF s -> sstep OClose p = Some (b, p') ->
+  exists r s', conn_close s = (r, s') /\ R s' p' /\ res_ok r b.
+Proof.
+  intros s p b p' HR W H. cbn in H. inversion H; subst. unfold conn_close, bind.
+  destruct (c_root s) as [r|] eqn:Hr.
+  - destruct (R_root_some _ _ _ HR Hr) as (nf & rs & Hst & Hroot & _).
+    unfold t_close. rewrite Hroot. destruct (root_close_impl_R _ _ _ false HR W Hr) as (s' & A & B & _).
+    rewrite A. eexists _, _. split; [reflexivity|]. split; [|reflexivity].
+    assert (E : match p_stack p with [] => p | _ :: _ => rollback_all p end = rollback_all p)
+      by (rewrite Hst; destruct nf; reflexivity).
+    rewrite E. apply (R_set_closed _ _ B). reflexivity.
+  - pose proof (proj2 (stack_root _ _ HR) Hr) as Hst. rewrite Hst.
+    eexists _, _. split; [reflexivity|]. split; [|reflexivity].
+    apply (R_set_closed _ _ HR Hst).
+Qed.
+
+Lemma sim_t_commit : forall s p k b p', R s p -> WF s -> gstep (TCommit k) p = true ->
+  sstep (TCommit k) p = Some (b, p') ->
+  exists r s', t_commit k s = (r, s') /\ R s' p' /\ res_ok r b.
+Proof.
+  intros s p k b p' HR W Hg H. unfold sstep in H. unfold gstep in Hg. destruct (k <? p_next p); [|discriminate].
+  destruct (live k p) eqn:Hl; inversion H; subst.
+  - destruct (live_commit_R _ _ _ HR W Hl Hg) as (s' & A & B & _). rewrite A.
+    eexists _, s'. split; [reflexivity|]. split; [auto|reflexivity].
+  - destruct (R_not_installed _ _ _ HR Hl) as (_ & _ & C).
+    destruct (t_commit_inactive _ _ C) as [e ->]. eexists _, s. split; [reflexivity|]. split; [auto|reflexivity].
+Qed.
+
+Lemma sim_t_close : forall s p k (c : bool) b p', R s p -> WF s ->
+  k < p_next p -> ok_end k p && ok_dead_root k p = true ->
+  Some (false, if live k p then rollback_handle k p else p) = Some (b, p') ->
+  exists r s', (if c then t_rollback k s else t_close k s) = (r, s') /\ R s' p' /\ res_ok r b /\ same_but s s'.
+Proof.
+  intros s p k c b p' HR W Hk Hg H. apply andb_true_iff in Hg. destruct Hg as [G1 G2].
+  inversion H; subst. destruct (live k p) eqn:Hl.
+  - destruct (live_close_R _ _ _ c HR W Hl G1) as (s' & A & B & C). rewrite A.
+    eexists _, s'. split; [reflexivity|]. split; [auto|split; [reflexivity|auto]].
+  - destruct (dead_close_R s p k c HR) as (s' & A & B & C); auto.
+    { rewrite (R_len _ _ HR). auto. }
+    rewrite A. eexists _, s'. split; [reflexivity|]. split; [auto|split; [reflexivity|auto]].
+Qed.
+
+Lemma sim_exit : forall s p k e b p', R s p -> WF s -> gstep (TExit k e) p = true ->
+  sstep (TExit k e) p = Some (b, p') ->
+  exists r s', t_exit k e s = (r, s') /\ R s' p' /\ res_ok r b.
+Proof.
+  intros s p k e b p' HR W Hg H. unfold sstep in H. unfold gstep in Hg.
+  destruct (k <? p_next p) eqn:Hk; [|discriminate]. apply Nat.ltb_lt in Hk.
+  destruct (p_ctx p) as [|j l] eqn:Hc; [discriminate|].
+  apply andb_true_iff in Hg. destruct Hg as [Hg G3]. apply andb_true_iff in Hg. destruct Hg as [G1 G2].
+  apply Nat.eqb_eq in G1. subst j.
+  pose proof (R_ctx_top _ _ HR) as T. rewrite Hc in T. destruct (c_ctx s) as [k'|] eqn:Hcs; [|contradiction].
+  destruct T as [-> Hkl].
+  assert (Hsub : subject k s = true).
+  { rewrite (R_subject _ _ HR k Hkl), Hc. cbn. rewrite Nat.eqb_refl. reflexivity. }
+  unfold t_exit. rewrite Hsub, Hcs. cbn [opt_is negb orb]. rewrite Nat.eqb_refl. cbn [negb].
+  rewrite (R_active _ _ HR).
+  inversion H; subst b p'; clear H.
+  destruct (live k p) eqn:Hl.
+  - destruct e; cbn [negb andb].
+    + (* exception: rollback *)
+      unfold finally. rewrite (R_active _ _ HR), Hl. cbn [negb].
+      destruct (live_close_R _ _ _ true HR W Hl G2) as (s1 & A & B & C). cbn iota in A. rewrite A.
+      eexists _, _. split; [reflexivity|]. split; [|reflexivity].
+      assert (E : p_ctx (rollback_handle k p) = k :: l).
+      { unfold rollback_handle. destruct (below k (p_stack p)); cbn; auto. }
+      pose proof (R_exit_fin _ _ _ _ B E) as X. unfold exit_spec in X. exact X.
+    + unfold finally.
+      destruct (live_commit_R _ _ _ HR W Hl G2) as (s1 & A & B & C). rewrite A.
+      eexists _, _. split; [reflexivity|]. split; [|reflexivity].
+      assert (E : p_ctx (commit_handle k p) = k :: l).
+      { unfold commit_handle. destruct (below k (p_stack p)); cbn; auto. }
+      pose proof (R_exit_fin _ _ _ _ B E) as X. unfold exit_spec in X. exact X.
+  - rewrite andb_false_r. unfold finally. rewrite (R_active _ _ HR), Hl. cbn [negb].
+    destruct (R_not_installed _ _ _ HR Hl) as (I1 & I2 & _).
+    assert (Hi : installed k s = false) by (unfold installed; destruct (is_root k s); auto).
+    rewrite Hi.
+    destruct (dead_close_R s p k false HR Hkl Hl G3) as (s1 & A & B & C). cbn iota in A. rewrite A.
+    eexists _, _. split; [reflexivity|]. split; [|reflexivity].
+    pose proof (R_exit_fin _ _ _ _ B Hc) as X. unfold exit_spec in X. rewrite Hc in X. rewrite Hc. exact X.
+Qed.
+
+Lemma sim_op : forall o s p b p', R s p -> WF s -> gstep o p = true -> sstep o p = Some (b, p') ->
+  exists r s', run_op o s = (r, s') /\ R s' p' /\ res_ok r b.
+Proof.
+  intros o s p b p' HR W Hg H. destruct o; cbn [run_op].
+  - eapply sim_begin; eauto.
+  - eapply sim_nested; eauto.
+  - eapply sim_ins; eauto.
+  - eapply sim_conn_commit; eauto.
+  - eapply sim_conn_rollback; eauto.
+  - eapply sim_conn_close; eauto.
+  - eapply sim_t_commit; eauto.
+  - unfold sstep in H. unfold gstep in Hg. destruct (k <? p_next p) eqn:Hk; [|discriminate].
+    apply Nat.ltb_lt in Hk.
+    destruct (sim_t_close s p k true b p' HR W Hk Hg H) as (r & s' & A & B & C & _). eauto.
+  - unfold sstep in H. unfold gstep in Hg. destruct (k <? p_next p) eqn:Hk; [|discriminate].
+    apply Nat.ltb_lt in Hk.
+    destruct (sim_t_close s p k false b p' HR W Hk Hg H) as (r & s' & A & B & C & _). eauto.
+  - unfold sstep in H. unfold gstep in Hg. destruct (k <? p_next p) eqn:Hk; [|discriminate].
+    apply Nat.ltb_lt in Hk. inversion H; subst. apply negb_true_iff in Hg.
+    eexists _, _. split; [reflexivity|]. split; [|reflexivity].
+    apply R_enter; auto. rewrite (R_len _ _ HR). auto.
+  - eapply sim_exit; eauto.
+Qed.
+
+(* one step of a guarded history *)
+Lemma sim_step : forall o s p, R s p -> WF s ->
+  match sstep o p with
+  | None => step o s = None
+  | Some (b, p') => gstep o p = true ->
+      exists r s', step o s = Some (r, s') /\ R s' p' /\ res_ok r b
+  end.
+Proof.
+  intros o s p HR W. pose proof (R_clear_log _ _ HR) as HR0. pose proof (WF_clear_log _ W) as W0.
+  unfold step.
+  assert (Hh : forall k, handle_of o = Some k -> sstep o p = None <-> (k <? length (txns s)) = false).
+  { intros k Hk. rewrite (R_len _ _ HR). destruct o; cbn in Hk; inversion Hk; subst; unfold sstep;
+      destruct (k <? p_next p); split; intros; congruence. }
+  destruct (sstep o p) as [[b p']|] eqn:E.
+  - intros Hg. destruct (sim_op o _ p b p' HR0 W0 Hg E) as (r & s' & A & B & C).
+    destruct (handle_of o) as [k|] eqn:Hk.
+    + destruct (k <? length (txns s)) eqn:Hlt.
+      * rewrite A. eauto.
+      * apply (Hh k eq_refl) in Hlt. discriminate.
+    + rewrite A. eauto.
+  - destruct (handle_of o) as [k|] eqn:Hk.
+    + rewrite (proj1 (Hh k eq_refl) eq_refl). reflexivity.
+    + destruct o; cbn in Hk; try discriminate; cbn in E; discriminate.
+Qed.
+
+Lemma R_init : R (init db_empty) (spec_init []).
+Proof.
+  constructor; cbn; auto; try constructor.
+  - intros k Hk. lia.
+  - intros k. unfold active, get. cbn. destruct k; reflexivity.
+  - intros e [].
+  - intros k Hk. lia.
 Qed.
